@@ -8,6 +8,7 @@
 //! address-space cap: a former defect made `post_order` loop forever allocating memory.
 use clarabel::algebra::*;
 use clarabel::verif_hooks::chordal as hk;
+use clarabel::verif_hooks::chordal_cg as hkcg;
 use std::collections::{BTreeSet, HashMap};
 use std::sync::Mutex;
 use vharness::proto::fus;
@@ -122,6 +123,7 @@ fn inner_run(chan: &str) -> Option<fn(&Req) -> String> {
         "analysis" => Some(analysis_inner),
         "analysis.cg" => Some(analysis_inner),
         "sntree.new" => Some(sntree_new_inner),
+        "cg.trace" => Some(cg_trace_inner),
         "post_order" => Some(post_order_inner),
         "info.new" => Some(info_new_inner),
         _ => None,
@@ -161,8 +163,20 @@ fn prefetch(lines: &[String], per_child: usize) {
         let parts: Vec<&str> = resp.split('|').collect();
         if (resp == "hang" || resp.starts_with("abort:") || parts.len() != todo.len()) && todo.len() > 1 {
             // find the culprit(s) one by one
-            for (k, _) in todo.iter() {
+            let mut hung_patterns: Vec<String> = vec![];
+            for (k, l) in todo.iter() {
+                // `cg.trace` runs the same `merge_cliques` as `analysis.cg`: when the analysis of this
+                // symbolic factor already hung, do not wait for the second hang
+                let r = Req::parse(l).unwrap();
+                let pat = format!("{}|{}|{}", r.str("n"), r.str("colptr"), r.str("rowval"));
+                if r.chan == "cg.trace" && hung_patterns.contains(&pat) {
+                    cache_put(k.clone(), "hang".to_string());
+                    continue;
+                }
                 let out = run_isolated(k, CHILD_TIMEOUT_S, CHILD_MEM_MB);
+                if r.chan == "analysis.cg" && out == "hang" {
+                    hung_patterns.push(pat);
+                }
                 cache_put(k.clone(), out);
             }
         } else if parts.len() == todo.len() {
@@ -789,6 +803,192 @@ fn oracle_analysis_hyp(_r: &Req, out: &str) -> Result<(), String> {
     Ok(())
 }
 
+// ------------------------------------------------------------------ channel: cg.trace
+//
+// The clique-graph merge strategy pass by pass.  The implementation's strategy state
+// (edge matrix, workspace `p`, adjacency table, clique sets, counter) after `initialise` and
+// after every pass of the loop of `merge_cliques` is digested and compared with the model's
+// (`CGStrategy.mergeTrace`, `CGSnap.digest`); on each state the LOOP INVARIANT `CGInv`
+// (`ClarabelProofs/Lemmas/ChordalCGDefs.lean`) is evaluated by the independent checker
+// `cg_inv_clause` below (the Lean side evaluates its own executable form `cgInvClauses`);
+// `rip` = the supernodes of the tree returned by `merge_cliques` are pairwise disjoint, `ne` = the
+// live ones are not empty: the two tested hypotheses of `C17.analysis_clique_graph_valid_partial`.
+
+fn cg_mix(h: u64, x: u64) -> u64 {
+    (h ^ x).wrapping_mul(1099511628211)
+}
+fn cg_mix_us(h: u64, xs: &[usize]) -> u64 {
+    xs.iter().fold(cg_mix(h, xs.len() as u64), |h, &x| cg_mix(h, x as u64))
+}
+fn cg_digest(x: &hkcg::CgSnapshot) -> u64 {
+    let mut h: u64 = 14695981039346656037;
+    h = cg_mix(cg_mix(h, x.m as u64), x.n as u64);
+    h = cg_mix_us(h, &x.colptr);
+    h = cg_mix_us(h, &x.rowval);
+    h = x.nzval.iter().fold(cg_mix(h, x.nzval.len() as u64), |h, &v| cg_mix(h, v as u64));
+    h = cg_mix_us(h, &x.p);
+    for (k, set) in x.adjacency.iter() {
+        h = cg_mix_us(cg_mix(h, *k as u64), set);
+    }
+    h = x.snode.iter().fold(cg_mix(h, x.snode.len() as u64), |h, s| cg_mix_us(h, s));
+    h = cg_mix(h, x.n_cliques as u64);
+    cg_mix(h, x.stop as u64)
+}
+
+/// 1-based index of the first clause of the loop invariant `CGInv nn nv` violated by the
+/// implementation's state `x` (0 = the invariant holds).  Clauses, in the order of
+/// `cgInvClauses`: 1 sizes, 2 wfe, 3 lower-sorted, 4 nonzero, 5 edge-live, 6 connected,
+/// 7 adj-keys, 8 adj-iff, 9 adj-nodup, 10 ncl, 11 psize, 12 sn-nodup, 13 sn-range.
+fn cg_inv_clause(nn: usize, nv: usize, x: &hkcg::CgSnapshot) -> usize {
+    let live = |c: usize| c < x.snode.len() && !x.snode[c].is_empty();
+    let distinct = |v: &[usize]| v.iter().collect::<BTreeSet<_>>().len() == v.len();
+    // 1 sizes
+    if !(x.snode.len() == nn && x.m == nn && x.n == nn) {
+        return 1;
+    }
+    // 2 wfe
+    let nnz = x.rowval.len();
+    if !(x.colptr.len() == nn + 1
+        && x.colptr[0] == 0
+        && x.colptr.windows(2).all(|w| w[0] <= w[1])
+        && x.colptr[nn] == nnz
+        && x.nzval.len() == nnz
+        && x.rowval.iter().all(|&r| r < nn))
+    {
+        return 2;
+    }
+    // 3 strictly lower triangular, rows strictly increasing in every column
+    let mut pairs: Vec<(usize, usize)> = vec![];
+    for c in 0..nn {
+        let rows = &x.rowval[x.colptr[c]..x.colptr[c + 1]];
+        if !(rows.iter().all(|&r| c < r) && rows.windows(2).all(|w| w[0] < w[1])) {
+            return 3;
+        }
+        pairs.extend(rows.iter().map(|&r| (r, c)));
+    }
+    // 4 no stored zero
+    if x.nzval.iter().any(|&v| v == 0) {
+        return 4;
+    }
+    // 5 entries join live cliques only
+    if !pairs.iter().all(|&(r, c)| live(r) && live(c)) {
+        return 5;
+    }
+    // 6 the live cliques are connected by the entries
+    let lives: Vec<usize> = (0..nn).filter(|&c| live(c)).collect();
+    if let Some(&a) = lives.first() {
+        let mut comp: Vec<usize> = (0..nn).collect();
+        fn find(comp: &mut Vec<usize>, mut v: usize) -> usize {
+            while comp[v] != v {
+                comp[v] = comp[comp[v]];
+                v = comp[v];
+            }
+            v
+        }
+        for &(r, c) in pairs.iter() {
+            let (a, b) = (find(&mut comp, r), find(&mut comp, c));
+            comp[a] = b;
+        }
+        let ra = find(&mut comp, a);
+        if !lives.iter().all(|&b| find(&mut comp, b) == ra) {
+            return 6;
+        }
+    }
+    // 7 the keys of the adjacency table are exactly the live cliques
+    let keys: Vec<usize> = x.adjacency.iter().map(|kv| kv.0).collect();
+    if keys != lives {
+        return 7;
+    }
+    // 8 b ∈ table[a] iff (max,min) is stored and a != b  (in particular: no removed clique)
+    let pair_set: std::collections::HashSet<(usize, usize)> = pairs.iter().copied().collect();
+    let adj = |a: usize, b: usize| a != b && pair_set.contains(&(a.max(b), a.min(b)));
+    for (a, set) in x.adjacency.iter() {
+        if !(set.iter().all(|&b| adj(*a, b)) && (0..nn).all(|b| !adj(*a, b) || set.contains(&b))) {
+            return 8;
+        }
+    }
+    // 9 adjacency sets without repetition
+    if !x.adjacency.iter().all(|kv| distinct(&kv.1)) {
+        return 9;
+    }
+    // 10 the counter
+    if x.n_cliques != lives.len() {
+        return 10;
+    }
+    // 11 the workspace is long enough for `traverse`
+    if x.nzval.len() > x.p.len() {
+        return 11;
+    }
+    // 12, 13 clique sets
+    if !x.snode.iter().all(|s| distinct(s)) {
+        return 12;
+    }
+    if !x.snode.iter().all(|s| s.iter().all(|&v| v < nv)) {
+        return 13;
+    }
+    0
+}
+
+fn cg_trace_inner(r: &Req) -> String {
+    let d = hk::supernode_tree_new(&lpat(r));
+    if d.n_cliques <= 1 {
+        return "steps=0 rip=1 ne=1".to_string();
+    }
+    let nn = d.snode.len();
+    let nv = r.u("n");
+    let (tr, fin) = hkcg::merge_cliques_cg_trace(&d);
+    let cr: Vec<usize> = tr.iter().map(|x| x.cand.map_or(NO_PARENT, |c| c.0)).collect();
+    let cc: Vec<usize> = tr.iter().map(|x| x.cand.map_or(NO_PARENT, |c| c.1)).collect();
+    let dm: Vec<usize> = tr.iter().map(|x| x.do_merge as usize).collect();
+    let ncl: Vec<usize> = tr.iter().map(|x| x.n_cliques).collect();
+    let nnz: Vec<usize> = tr.iter().map(|x| x.nzval.len()).collect();
+    let dg: Vec<String> = tr.iter().map(|x| cg_digest(x).to_string()).collect();
+    let inv: Vec<usize> = tr.iter().map(|x| cg_inv_clause(nn, nv, x)).collect();
+    let flat: Vec<usize> = fin.snode.iter().flatten().copied().collect();
+    let rip = flat.iter().collect::<BTreeSet<_>>().len() == flat.len();
+    let ne = (0..fin.snode.len()).all(|c| fin.snode_parent.get(c).copied().unwrap_or(0) == INACTIVE || !fin.snode[c].is_empty());
+    format!(
+        "steps={} cr={} cc={} dm={} ncl={} nnz={} dg={} inv={} rip={} ne={}",
+        tr.len(),
+        fus(&cr),
+        fus(&cc),
+        fus(&dm),
+        fus(&ncl),
+        fus(&nnz),
+        dg.join(","),
+        fus(&inv),
+        rip as usize,
+        ne as usize
+    )
+}
+fn run_cg_trace(r: &Req) -> String {
+    isolated(r, cg_trace_inner)
+}
+fn oracle_cg_trace(_r: &Req, out: &str) -> Result<(), String> {
+    let o = Req::parse(&format!("x {}", out)).ok_or("unparsable response")?;
+    if o.u("steps") > 0 {
+        let inv = o.us("inv");
+        if let Some(k) = inv.iter().position(|&c| c != 0) {
+            const NAMES: [&str; 14] = [
+                "", "sizes", "wfe", "lower-sorted", "nonzero", "edge-live", "connected", "adj-keys", "adj-iff",
+                "adj-nodup", "ncl", "psize", "sn-nodup", "sn-range",
+            ];
+            return Err(format!(
+                "the loop invariant CGInv of the clique-graph strategy fails on the implementation's state after pass {}: clause `{}`",
+                k,
+                NAMES.get(inv[k]).copied().unwrap_or("?")
+            ));
+        }
+    }
+    if !o.b("rip") {
+        return Err("the supernodes of the tree returned by merge_cliques (clique_graph) are not pairwise disjoint (hypothesis cgRipB of C17.analysis_clique_graph_valid_partial)".into());
+    }
+    if !o.b("ne") {
+        return Err("a live clique of the tree returned by merge_cliques (clique_graph) has an empty supernode (hypothesis cgNonemptyB of C17.analysis_clique_graph_valid_partial)".into());
+    }
+    Ok(())
+}
+
 fn hash_line(s: &str) -> u64 {
     let mut h = 0xcbf29ce484222325u64;
     for b in s.bytes() {
@@ -1131,6 +1331,9 @@ fn channels() -> Vec<Channel> {
             lean: "Chordal.sparsityPatternNew" },
         Channel { name: "analysis.cg", tol: Tol::Exact, run: run_analysis, oracle: Some(oracle_analysis), modelled: true,
             rust_fn: "SparsityPattern::new (clique_graph merge)", lean: "Chordal.sparsityPatternNewCG (CGStrategy.{initialise,traverse,evaluate,mergeTwoCliques,updateStrategy,postProcessMerge}, IMat, kruskal, ...)" },
+        Channel { name: "cg.trace", tol: Tol::Exact, run: run_cg_trace, oracle: Some(oracle_cg_trace), modelled: true,
+            rust_fn: "CliqueGraphMergeStrategy::{initialise,traverse,evaluate,merge_two_cliques,update_strategy} pass by pass (compute_reduced_clique_graph, compute_weights, new_from_triplets, compute_adjacency_table, max_elem, ispermissible, set_entry, dropzeros)",
+            lean: "Chordal.CGStrategy.mergeTrace / CGSnap.digest, cgInvClauses (= CGInv, Lemmas/ChordalCGDefs.lean), cgRipB, cgNonemptyB / C17.analysis_clique_graph_valid_partial" },
         Channel { name: "tree.valid", tol: Tol::Exact, run: run_tree_valid, oracle: Some(oracle_tree_valid), modelled: true,
             rust_fn: "(harness oracle check_clique_tree, on corrupted copies of the analysis output)",
             lean: "Chordal.validCliqueTreeB / Chordal.validCliqueTreeB_iff" },
@@ -1335,6 +1538,8 @@ fn analysis_lines(s: &mut Session, g: &Graph, with_sntree: bool) -> Vec<String> 
             .us("ej", &ej)
             .done(),
     );
+    // the clique-graph strategy pass by pass on this symbolic factor
+    lines.push(Line::new("cg.trace").u("n", g.0).us("colptr", &o.us("colptr")).us("rowval", &o.us("rowval")).done());
     if with_sntree {
         lines.push(Line::new("sntree.new").u("n", g.0).us("colptr", &o.us("colptr")).us("rowval", &o.us("rowval")).done());
     }
